@@ -22,6 +22,7 @@ import (
 )
 
 const c16KFGzip = "C16-corrupt-gzip-leaks-connection"
+const c16KFSpool = "C16-discarded-truncated-response-leaks-spool-file"
 
 type c16NetCase struct {
 	Case
@@ -101,14 +102,42 @@ func c16Quiesce(t veriflib.TB, c c16NetCase, run *Runner, phase string, hist fun
 		fail("the per-host limiter table holds %d buckets, its bound (workers x max-concurrent-assets) is %d", n, max)
 	}
 	p.DropFinishes()
-	fp, samples, ok := StableFootprint(20 * time.Millisecond)
+	// Records of responses on archive()'s retry paths are written without anybody waiting for them: a record writer may
+	// still be busy (its spool files exist until the record is in the WARC file). Leftover spool files are declared
+	// only when neither their list nor the size of the WARC files has changed for the whole no-progress window.
+	type spoolSig struct {
+		files string
+		bytes int64
+	}
+	ssig := func() spoolSig { return spoolSig{strings.Join(p.SpoolFiles(), " "), p.WARCBytes()} }
+	for last, since := ssig(), time.Now(); last.files != ""; time.Sleep(5 * time.Millisecond) {
+		if s := ssig(); s != last {
+			last, since = s, time.Now()
+		} else if time.Since(since) > c.Settings.Window() {
+			var heads []string
+			for _, f := range p.SpoolFiles() {
+				b, _ := os.ReadFile(f)
+				fi, _ := os.Stat(f)
+				if len(b) > 160 {
+					b = b[:160]
+				}
+				sz := int64(-1)
+				if fi != nil {
+					sz = fi.Size()
+				}
+				heads = append(heads, fmt.Sprintf("%s (%d bytes) begins %q", f[strings.LastIndexByte(f, '/')+1:], sz, b))
+			}
+			fail("the queue has drained but spool file(s) remain on disk and nothing has been written to the WARC files for %s: %s", c.Settings.Window(), strings.Join(heads, "; "))
+		}
+	}
+	fp, samples, ok := StableFootprint(20*time.Millisecond, p.WARCBytes)
 	if !ok {
 		run.StopWatched()
 		t.Fatalf("harness: footprint did not settle within %d samples (last %+v)", samples, fp)
 	}
-	// spool files are looked for after the footprint has settled: a record writer may still have been deleting its own
 	if left := p.SpoolFiles(); len(left) > 0 {
-		fail("the queue has drained but %d spool file(s) remain on disk: %v", len(left), left)
+		run.StopWatched()
+		t.Fatalf("harness: spool files appeared after the footprint had settled: %v", left)
 	}
 	return fp
 }
@@ -144,6 +173,7 @@ func propC16Net(t veriflib.TB, c c16NetCase) {
 	fmt.Printf("C16/net first %d seeds finished after %s\n", n, time.Since(t0).Round(time.Millisecond))
 	a := c16Quiesce(t, c, run, fmt.Sprintf("after N=%d seeds", n), hist)
 	fpN = &a
+	censusN := GoroutineCensus()
 	if hang := run.Feed(c.Seeds[n:], len(c.Seeds)-n); hang != "" {
 		c16Die("C16/net", c, hist(), "the queue never drains, seed(s) were never reported finished: "+hang)
 	}
@@ -154,12 +184,28 @@ func propC16Net(t veriflib.TB, c c16NetCase) {
 		run.StopWatched()
 		t.Fatalf("harness: insert: %v", err)
 	}
+	// More after 4N than after N: leaked, or merely slow to go away (the 5-sample rule is short on a busy machine)? A
+	// footprint that is still above the one after N when nothing has changed for the whole no-progress window is a leak.
+	// Fewer after 4N than after N means the sample after N contained something on its way out: not growth.
+	for last, since := b, time.Now(); (b.Goroutines > a.Goroutines || b.FDs > a.FDs) && time.Since(since) <= c.Settings.Window(); {
+		time.Sleep(100 * time.Millisecond)
+		b, _, _ = StableFootprint(20*time.Millisecond, p.WARCBytes)
+		if b != last {
+			last, since = b, time.Now()
+			veriflib.Class("C16/net", "note:footprint-after-4N-settled-late")
+		}
+	}
+	if b.Goroutines < a.Goroutines || b.FDs < a.FDs {
+		veriflib.Class("C16/net", "note:sample-after-N-contained-a-transient")
+	}
 	var dumpIfGrown string
-	if b.Goroutines != a.Goroutines {
+	var censusDiff []string
+	if b.Goroutines > a.Goroutines {
 		dumpIfGrown = GoroutineDump()
+		censusDiff = CensusDiff(censusN, GoroutineCensus())
 	}
 	var fds []string
-	if b.FDs != a.FDs {
+	if b.FDs > a.FDs {
 		ents, _ := os.ReadDir("/proc/self/fd")
 		for _, de := range ents {
 			l, _ := os.Readlink("/proc/self/fd/" + de.Name())
@@ -170,13 +216,14 @@ func propC16Net(t veriflib.TB, c c16NetCase) {
 	if hang := run.StopWatched(); hang != "" {
 		c16Die("C16/net", c, hist(), "after the footprint was taken: "+hang)
 	}
-	if b.Goroutines != a.Goroutines {
+	if b.Goroutines > a.Goroutines {
 		h := hist()
 		h.Dump = dumpIfGrown
-		h.Message = fmt.Sprintf("%d goroutines at quiescence after %d seeds, %d after %d seeds", a.Goroutines, n, b.Goroutines, len(c.Seeds))
+		h.Detail = censusDiff
+		h.Message = fmt.Sprintf("%d goroutines at quiescence after %d seeds, %d after %d seeds; groups that differ (top frame <- creator): %v", a.Goroutines, n, b.Goroutines, len(c.Seeds), censusDiff)
 		veriflib.Fail(t, "C16", "C16/net", c, h, "%s", h.Message)
 	}
-	if b.FDs != a.FDs {
+	if b.FDs > a.FDs {
 		h := hist()
 		h.Detail = fds
 		h.Message = fmt.Sprintf("%d open file descriptors at quiescence after %d seeds, %d after %d seeds", a.FDs, n, b.FDs, len(c.Seeds))
@@ -245,7 +292,8 @@ func genC16NetCase(t *rapid.T) c16NetCase {
 	}
 	c := c16NetCase{Case: Case{Settings: s, Site: map[string]*Resp{}}}
 	c.N = rapid.IntRange(veriflib.N("C16_NMIN", 30, 30), veriflib.N("C16_NMAX", 60, 150)).Draw(t, "n")
-	mix := Mix{Huge: 6, BigText: 12, Faults: 40, BadGzip: 25, FailThenOK: 30, BadStatus: 150, MaxAssets: 5, Hosts: s.Hosts, AllowEOF: true, DedupeTotal: 1024, NoPenalty: s.RateLimit}
+	mix := Mix{Huge: 6, BigText: 12, Faults: 40, BadGzip: 25, FailThenOK: 30, BadStatus: 150, MaxAssets: 5, Hosts: s.Hosts, AllowEOF: true, DedupeTotal: 1024, NoPenalty: s.RateLimit,
+		Discard: s.DiscardStatus, KeepRejectedWhole: veriflib.FindingOpen(c16KFSpool)}
 	if veriflib.FindingOpen(c16KFGzip) {
 		mix.BadGzip = 0
 		veriflib.Excluded("C16/net", "no corrupt gzip bodies generated (open finding "+c16KFGzip+")")
@@ -280,6 +328,23 @@ func TestVerifKF_C16_CorruptGzipLeaksConnection(t *testing.T) {
 		ref := fmt.Sprintf("h%d:/s%d/r1.txt", k%2, k)
 		c.Site[ref] = &Resp{Status: 200, Kind: "text", Size: 300000, BodySeed: int64(k), CType: "text/plain", Framing: []string{"cl", "chunked"}[k%2], Gzip: true,
 			Fault: []string{"badgzip-header", "badgzip-mid", "badgzip-crc"}[k%3]}
+		c.Seeds = append(c.Seeds, SeedPlan{ID: fmt.Sprintf("seed-%d", k), Ref: ref, Prefix: fmt.Sprintf("/s%d/", k)})
+	}
+	propC16Net(t, c)
+}
+
+// Strict reproduction of the open finding: responses the discard policy rejects (429 in --warc-discard-status, Cloudflare
+// challenge) whose body is cut short, with --warc-on-disk: the record's spool file is never removed.
+func TestVerifKF_C16_DiscardedTruncatedLeaksSpoolFile(t *testing.T) {
+	defer veriflib.Flush()
+	c := c16NetCase{N: 2, Case: Case{Settings: Settings{Workers: 2, MaxAssets: 2, MaxRedirect: 1, MaxRetry: 0, WARCPool: 1, WARCOnDisk: true, LocalDedupe: true, Hosts: 2, DiscardStatus: []int{429}}, Site: map[string]*Resp{}}}
+	for k := 1; k <= 10; k++ {
+		ref := fmt.Sprintf("h%d:/s%d/r1.txt", k%2, k)
+		r := &Resp{Status: 429, Kind: "text", Size: 3000, BodySeed: int64(k), CType: "text/plain", Framing: []string{"cl", "chunked"}[k%2], Fault: "truncate"}
+		if k%3 == 0 {
+			r.Status, r.CFHeader = 403, "cf-mitigated"
+		}
+		c.Site[ref] = r
 		c.Seeds = append(c.Seeds, SeedPlan{ID: fmt.Sprintf("seed-%d", k), Ref: ref, Prefix: fmt.Sprintf("/s%d/", k)})
 	}
 	propC16Net(t, c)
